@@ -133,9 +133,10 @@ def main(verif, repo, scratch, report=None):
         rc, out = sh([PY, "-c", f"import ast,sys; ast.parse(open({os.path.join(tree, REL)!r}).read())"])
         assert rc == 0, out
         rc, out = sh([PY, os.path.join(verif, "translator", "py2coq.py"), tree, os.path.join(coq, "gen")])
-        if rc != 0:
-            msg = [l for l in out.splitlines() if l.startswith("TRANSLATOR-UNSUPPORTED")]
-            res = ("translator rejects (exit %d)" % rc, (msg or [out.strip()[-200:]])[0][:200])
+        rejected = [l for l in out.splitlines() if l.startswith("TRANSLATOR-UNSUPPORTED")]
+        if rc != 0 or rejected:
+            # (the translator now poisons the rejected output file instead of exiting: dependants stop compiling)
+            res = ("translator rejects", (rejected or [out.strip()[-200:]])[0][:200])
         else:
             rc2, log = sh(["make", "-j8", "COQC=timeout 600 coqc", "proofs/TermGenFacts.vo"], cwd=coq)
             if rc2 == 0:
